@@ -31,7 +31,7 @@ EXPLANATION = (
     "per column)."
 )
 NOT_DECIDED = "pandas replace/select semantics; equality of outputs on data"
-FLOORS = {"R-labels-last": 12, "R-interval-lookup": 2, "R-float-labels-injective": 1, "R-label-injective": 1, "R-string-form": 2, "R-nan-restore": 2, "R-qualitative-map": 1, "R-index-kept": 1, "R-label-alignment": 2, "R-single-table": 2, "R-default-formula": 2, "R-rowwise": 1, "R-labels-refreshed": 2}
+FLOORS = {"R-labels-last": 12, "R-interval-lookup": 2, "R-float-labels-injective": 1, "R-label-injective": 1, "R-string-form": 2, "R-nan-restore": 2, "R-qualitative-map": 1, "R-index-kept": 1, "R-label-alignment": 2, "R-single-table": 2, "R-default-formula": 2, "R-rowwise": 1, "R-labels-refreshed": 2, "R-readonly-queries": 30}
 
 EDIT_NAMES = ("values_orders", "_remove_feature", "features", "quantitative_features", "qualitative_features")
 
@@ -385,6 +385,7 @@ def check(ctx):
     from . import c17
 
     c17.rule_update(ctx)
+    c07.rule_readonly_queries(ctx)
     rule_label_alignment(ctx)
     rule_labels_last(ctx)
     rule_interval_lookup(ctx)
